@@ -18,8 +18,8 @@ Lemma dinv_root_damage st d :
   Inv (r_damage st) -> nonempty d -> Inv (r_damage (root_damage st d)).
 Proof.
   intros Hi Hd. unfold root_damage.
-  destruct (rs_contains rsfuel (r_damage st) d) as [[|]|]; [exact Hi| |exact Hi].
-  destruct (rs_add rsfuel (r_damage st) d) as [s|] eqn:Ea; [|exact Hi].
+  destruct (rs_contains (r_fuel st) (r_damage st) d) as [[|]|]; [exact Hi| |exact Hi].
+  destruct (rs_add (r_fuel st) (r_damage st) d) as [s|] eqn:Ea; [|exact Hi].
   cbn [r_damage set_flags set_damage]. apply (rs_add_inv _ _ _ _ Hi Hd Ea).
 Qed.
 
@@ -186,7 +186,7 @@ Proof.
   intros Hrc. destruct acc as [[[s tm] ret] dp]. unfold scroll_one, acc_st. cbn [fst]. intros Hi.
   destruct ((Z.abs d >=? lines rc) || (Z.abs r >=? cols rc)).
   - cbn [fst]. apply dinv_expose_some. exact Hi.
-  - destruct (shift_damage (r_damage s) rc d r) as [dmg|] eqn:Esh; [|cbn [fst]; exact Hi].
+  - destruct (shift_damage (r_fuel s) (r_damage s) rc d r) as [dmg|] eqn:Esh; [|cbn [fst]; exact Hi].
     destruct (shift_damage_inv _ _ _ _ _ (inv_all_nonempty _ Hi) Hrc Esh) as [Hid _].
     destruct (term_scroll (if dp then tm else term_set_cvis tm false) rc d r) as [tm2 acc'].
     assert (H1 : Inv (r_damage (set_damage s dmg))) by exact Hid.
@@ -222,13 +222,13 @@ Proof.
             end) as [rc|] eqn:Erc; [|left; reflexivity].
   assert (Hrcne : nonempty rc).
   { destruct orig as [o|]; apply intersect_some in Erc; tauto. }
-  destruct (rs_add rsfuel [] rc) as [v0|] eqn:Ev0; [|left; reflexivity].
+  destruct (rs_add (r_fuel st) [] rc) as [v0|] eqn:Ev0; [|left; reflexivity].
   destruct (rs_add_inv _ _ _ _ inv_nil Hrcne Ev0) as [Hinv0 Hcov0].
-  destruct (if mask then rs_sub_vis (Some v0) (t_kids w) else Some v0) as [v1|] eqn:Ev1;
+  destruct (if mask then rs_sub_vis (r_fuel st) (Some v0) (t_kids w) else Some v0) as [v1|] eqn:Ev1;
     [|left; reflexivity].
   assert (Hv1 : Inv v1 /\ forall p, covered v1 p -> cell_in rc p).
   { destruct mask.
-    - destruct (rs_sub_vis_exact (t_kids w) v0 v1 Hinv0) as [Hi Hcv]; [|exact Ev1|].
+    - destruct (rs_sub_vis_exact (rfuel:=(r_fuel st)) (t_kids w) v0 v1 Hinv0) as [Hi Hcv]; [|exact Ev1|].
       + apply Forall_forall. intros c Hc0. apply Hvn.
         eapply subtree_trans; [apply subtree_kid; exact Hc0|exact Hsw].
       + split; [exact Hi|]. intros p Hp. apply Hcv in Hp. destruct Hp as [Hp _].
@@ -245,9 +245,9 @@ Proof.
     assert (Hps : cell_in (selfrect (t_info w)) p).
     { destruct orig as [o|]; apply intersect_some in Erc; destruct Erc as [_ Erc]; apply Erc in Hp; tauto. }
     rewrite Hw in Hps. exact Hps. }
-  pose proof (scroll_region_spec id _ _ T T D Hkc Hu Hvn pth v1 Hpath Hinv1 Hvself) as Hreg.
+  pose proof (scroll_region_spec (rfuel:=(r_fuel st)) id _ _ T T D Hkc Hu Hvn pth v1 Hpath Hinv1 Hvself) as Hreg.
   rewrite Hchain.
-  destruct (scroll_region no_defects (rev (T :: pth)) v1 0 0) as [| |V a b]; try (left; reflexivity).
+  destruct (scroll_region no_defects (r_fuel st) (rev (T :: pth)) v1 0 0) as [| |V a b]; try (left; reflexivity).
   right. destruct Hreg as (_ & HinvV & _). exists V, a, b. split; [apply inv_all_nonempty; exact HinvV|].
   reflexivity.
 Qed.
